@@ -83,6 +83,23 @@ fn is_single_terminal(v: &Value) -> bool {
     }
 }
 
+fn count_strings(v: &Value, out: &mut Vec<String>) {
+    match v["type"].as_str().unwrap_or("") {
+        "STRING" => out.push(v["value"].as_str().unwrap().to_string()),
+        "TOKEN" | "IMMEDIATE_TOKEN" | "PATTERN" => {}
+        _ => {
+            if let Some(ms) = v.get("members").and_then(|m| m.as_array()) {
+                for m in ms {
+                    count_strings(m, out);
+                }
+            }
+            if let Some(c) = v.get("content") {
+                count_strings(c, out);
+            }
+        }
+    }
+}
+
 fn collect_strings(v: &Value, out: &mut Vec<String>) {
     match v["type"].as_str().unwrap_or("") {
         "STRING" => {
@@ -112,10 +129,18 @@ pub fn terminals(lang: &Lang) -> Option<Vec<Term>> {
     let rules = g["rules"].as_object().unwrap();
     let mut strings = Vec::new();
     let mut named = Vec::new();
+    // how often every string occurs as a token of its own in the whole grammar
+    let mut uses: Vec<String> = Vec::new();
+    for (_, body) in rules {
+        count_strings(body, &mut uses);
+    }
     for (idx, (name, body)) in rules.iter().enumerate() {
-        // `extract_tokens` does not turn the start rule or a hidden rule into the token of its string:
-        // the rule stays a non-terminal over the anonymous string (TsVerif.C03.tokenView)
-        if body["type"] == "STRING" && (idx == 0 || name.starts_with('_')) {
+        // `extract_tokens` does not turn the start rule or a hidden rule into the token of its string, nor
+        // a rule whose string is used elsewhere too: the rule stays a non-terminal over the anonymous
+        // string (TsVerif.C03.tokenView)
+        if body["type"] == "STRING"
+            && (idx == 0 || name.starts_with('_') || uses.iter().filter(|u| Some(u.as_str()) == body["value"].as_str()).count() > 1)
+        {
             collect_strings(body, &mut strings);
             continue;
         }
